@@ -1,6 +1,1260 @@
-//! C02 — not implemented yet.
+//! C02 — Three-valued logic decides which rows a predicate keeps.
+//!
+//! Generator: ONE table `t` whose rows are the full cross product of the tiny
+//! nullable domains of the 1–4 columns the generated tree references
+//! (`a,b` BIGINT, `c,e` INTEGER ∈ {NULL,0,1,2}; `s` VARCHAR ∈ {NULL,'','a','ab','a%'};
+//! `d` DATE, `f,g` DOUBLE, `p` BOOLEAN — each with NULL), so every expression
+//! meets every NULL / non-NULL operand combination by construction (≤ 320
+//! rows); the other columns cycle through their domains. A one-row table
+//! `o(k = 1, n = NULL)` is the join partner. Boolean trees of depth ≤ 4 over
+//! comparisons, IS [NOT] NULL, IN-lists with/without NULL elements, [NOT]
+//! BETWEEN, [NOT] LIKE, AND/OR/NOT, IS [NOT] DISTINCT FROM, boolean columns,
+//! CASE/COALESCE/NULLIF/arithmetic operands and literal-only subtrees
+//! (`(NULL = 1) OR TRUE`, `CAST(NULL AS BOOLEAN)`, bare `NULL`) for constant
+//! folding. A third of the trees is drawn from the all-numeric grammar the
+//! compiled predicate path admits (`compiled_expr.rs`); whether the engine
+//! really compiled the WHERE predicate is asked from the engine itself
+//! (`CompiledPredicate::compile` on the optimized plan's filter) and labelled.
+//!
+//! Every tree is observed six ways (check `tvl_placements`):
+//!   where       SELECT t.id FROM t WHERE e
+//!   project     SELECT t.id, e AS v FROM t            (v must be exactly TRUE/FALSE/NULL)
+//!   having      SELECT t.id FROM t GROUP BY t.id[, cols] HAVING e   (single-row groups;
+//!               either grouped by all referenced columns or through MIN/MAX(col))
+//!   above_left  SELECT o2.j, t.id FROM o2 LEFT JOIN t ON o2.j = t.id WHERE e
+//!               (o2 holds some ids of t plus two unmatched values: the tree also
+//!               meets the all-NULL null-extended rows, and — for the NULL-free
+//!               VARCHAR column `r` — the dictionary-encoded column the join emits)
+//!   inner       SELECT t.id FROM t INNER JOIN o ON e  (e may reference o.k / o.n)
+//!   left        SELECT t.id, o.k FROM t LEFT JOIN o ON e
+//! and check `scalar_nulls` projects CASE/COALESCE/NULLIF/arithmetic trees.
+//!
+//! Oracle: `refsql` (3VL), plus an independent per-row evaluator in this module
+//! (`ev`) that must agree with refsql on the kept ids (oracle self-check) and
+//! that also evaluates the tree under *null-strict* connectives (the arrow
+//! `and`/`or` kernels the engine used before commit 202a3e0) for the
+//! non-triviality rule.
 use super::Property;
+use crate::data::*;
+use crate::engine::*;
+use crate::refsql::{self, Db};
+use crate::runner::*;
+use crate::sqlast::*;
+use crate::sqlcheck::*;
+use crate::sqlgen::{SqlCase, Tape};
+use proptest::prelude::*;
+use serde::{Deserialize, Serialize};
+use std::cmp::Ordering;
+use std::collections::BTreeSet;
+
+// ---------------------------------------------------------------------------
+// schema
+// ---------------------------------------------------------------------------
+
+struct ColDef {
+    name: &'static str,
+    ty: ColType,
+}
+const COLS: [ColDef; 10] = [
+    ColDef { name: "a", ty: ColType::Int },
+    ColDef { name: "b", ty: ColType::Int },
+    ColDef { name: "c", ty: ColType::Int32 },
+    ColDef { name: "e", ty: ColType::Int32 },
+    ColDef { name: "s", ty: ColType::Str },
+    ColDef { name: "d", ty: ColType::Date },
+    ColDef { name: "f", ty: ColType::Double },
+    ColDef { name: "g", ty: ColType::Double },
+    ColDef { name: "p", ty: ColType::Bool },
+    // VARCHAR without NULLs: above an outer join its NULLs come only from the
+    // null extension (the join then hands the filter a dictionary-encoded column)
+    ColDef { name: "r", ty: ColType::Str },
+];
+const D0: i32 = 10957; // 2000-01-01
+const D1: i32 = 10972; // 2000-01-16
+
+fn domain(ci: usize) -> Vec<Value> {
+    let s = |x: &str| Value::Str(x.to_string());
+    match COLS[ci].name {
+        "a" | "b" | "c" | "e" => vec![Value::Null, Value::Int(0), Value::Int(1), Value::Int(2)],
+        "s" => vec![Value::Null, s(""), s("a"), s("ab"), s("a%")],
+        "d" => vec![Value::Null, Value::Date(D0), Value::Date(D1)],
+        "f" => vec![Value::Null, Value::Double(0.5), Value::Double(1.0), Value::Double(1.5)],
+        "g" => vec![Value::Null, Value::Double(0.5), Value::Double(1.0)],
+        "p" => vec![Value::Null, Value::Bool(true), Value::Bool(false)],
+        "r" => vec![s(""), s("a"), s("ab"), s("a%")],
+        _ => unreachable!(),
+    }
+}
+
+/// `t`: id + all columns; rows = cross product of the domains of `chosen`.
+fn build_t(chosen: &[usize]) -> Table {
+    let doms: Vec<Vec<Value>> = (0..COLS.len()).map(domain).collect();
+    let n: usize = chosen.iter().map(|c| doms[*c].len()).product::<usize>().max(1);
+    let mut cols = vec![Column { name: "id".into(), ty: ColType::Int }];
+    cols.extend(COLS.iter().map(|c| Column { name: c.name.into(), ty: c.ty }));
+    let mut rows = Vec::with_capacity(n);
+    for i in 0..n {
+        let mut row = vec![Value::Int(i as i64 + 1)];
+        let mut rest = i;
+        let mut digits = vec![usize::MAX; COLS.len()];
+        for c in chosen {
+            digits[*c] = rest % doms[*c].len();
+            rest /= doms[*c].len();
+        }
+        for (ci, d) in doms.iter().enumerate() {
+            let k = if digits[ci] != usize::MAX { digits[ci] } else { (i * 7 + ci * 3 + i / 5) % d.len() };
+            row.push(d[k].clone());
+        }
+        rows.push(row);
+    }
+    Table { name: "t".into(), cols, rows }
+}
+
+/// `o2(j)`: ids 1..=min(n,40) of `t` plus two values without a partner
+fn build_o2(n: usize) -> Table {
+    let mut rows: Vec<Vec<Value>> = (1..=n.min(40)).map(|j| vec![Value::Int(j as i64)]).collect();
+    rows.push(vec![Value::Int(n as i64 + 1)]);
+    rows.push(vec![Value::Int(n as i64 + 2)]);
+    Table { name: "o2".into(), cols: vec![Column { name: "j".into(), ty: ColType::Int }], rows }
+}
+
+fn build_o() -> Table {
+    Table {
+        name: "o".into(),
+        cols: vec![Column { name: "k".into(), ty: ColType::Int }, Column { name: "n".into(), ty: ColType::Int }],
+        rows: vec![vec![Value::Int(1), Value::Null]],
+    }
+}
+
+// ---------------------------------------------------------------------------
+// generator
+// ---------------------------------------------------------------------------
+
+struct G {
+    t: Tape,
+    /// indices into COLS the tree may reference
+    chosen: Vec<usize>,
+    /// restrict to the grammar the compiled predicate path admits
+    numeric_only: bool,
+    /// allow o.k / o.n leaves
+    with_o: bool,
+    feats: BTreeSet<&'static str>,
+}
+
+fn tcol(name: &str) -> Expr {
+    Expr::qcol("t", name)
+}
+
+impl G {
+    fn feat(&mut self, f: &'static str) {
+        self.feats.insert(f);
+    }
+    fn cols_of(&self, pred: impl Fn(ColType) -> bool) -> Vec<usize> {
+        self.chosen.iter().copied().filter(|c| pred(COLS[*c].ty)).collect()
+    }
+    fn lit(&mut self, ty: ColType) -> Expr {
+        Expr::Lit(match ty {
+            ColType::Int | ColType::Int32 => Value::Int(self.t.pick(4) as i64),
+            ColType::Double => Value::Double([1.0, 0.5, 1.5, 0.25][self.t.pick(4)]),
+            ColType::Str => Value::Str(["a", "", "ab", "a%", "b"][self.t.pick(5)].to_string()),
+            ColType::Date => Value::Date([D0, D1, D0 + 7][self.t.pick(3)]),
+            ColType::Bool => Value::Bool(self.t.pick(2) == 0),
+        })
+    }
+    /// the type family used for literals compared with a column of type `ty`
+    fn pick_col(&mut self, pred: impl Fn(ColType) -> bool) -> Option<usize> {
+        let v = self.cols_of(pred);
+        if v.is_empty() {
+            None
+        } else {
+            Some(v[self.t.pick(v.len())])
+        }
+    }
+    /// a non-boolean column (preferred), else an Int literal
+    fn any_col(&mut self) -> (Expr, ColType) {
+        match self.pick_col(|t| t != ColType::Bool) {
+            Some(c) => (tcol(COLS[c].name), COLS[c].ty),
+            None => (self.lit(ColType::Int), ColType::Int),
+        }
+    }
+    fn same_family(a: ColType, b: ColType) -> bool {
+        a == b || (a.is_int() && b.is_int())
+    }
+    /// operand of the given family: literal, column of the family, NULL, o.k/o.n, small scalar expression
+    fn operand(&mut self, ty: ColType, depth: u32) -> Expr {
+        let k = self.t.pick(16);
+        match k {
+            0..=5 => self.lit(ty),
+            6..=9 => match self.pick_col(|t| Self::same_family(t, ty)) {
+                Some(c) => tcol(COLS[c].name),
+                None => self.lit(ty),
+            },
+            // (the engine cannot coerce an untyped NULL against DATE / BOOLEAN: an
+            // error, allowed but uninformative — kept rare for those types)
+            10 if !self.numeric_only && (!matches!(ty, ColType::Date | ColType::Bool) || self.t.chance(15)) => {
+                self.feat("null_literal_operand");
+                Expr::Lit(Value::Null)
+            }
+            // (an INTEGER = BIGINT equi-join key panics in the hash join — "index out of
+            // bounds", C29's business — so INTEGER columns meet o.k / o.n only rarely)
+            11 | 12 if self.with_o && (ty == ColType::Int || (ty == ColType::Int32 && self.t.chance(6))) => {
+                if self.t.chance(50) {
+                    self.feat("o_n");
+                    Expr::qcol("o", "n")
+                } else {
+                    self.feat("o_k");
+                    Expr::qcol("o", "k")
+                }
+            }
+            13 | 14 if depth > 0 && !self.numeric_only => self.scalar(ty, depth - 1),
+            15 if self.numeric_only && ty == ColType::Double => {
+                // f64 arithmetic side (compiled as register arithmetic)
+                self.feat("arith");
+                let a = match self.pick_col(|t| t == ColType::Double) {
+                    Some(c) => tcol(COLS[c].name),
+                    None => self.lit(ty),
+                };
+                let op = [BinOp::Add, BinOp::Sub, BinOp::Mul][self.t.pick(3)];
+                Expr::bin(a, op, self.lit(ty))
+            }
+            _ => self.lit(ty),
+        }
+    }
+
+    /// scalar expression of type family `ty` (CASE / COALESCE / NULLIF / arithmetic)
+    fn scalar(&mut self, ty: ColType, depth: u32) -> Expr {
+        // exact types: the engine's COALESCE rejects INTEGER mixed with BIGINT (and
+        // integer literals are BIGINT), so INTEGER-typed scalars are built from
+        // INTEGER columns only; an INTEGER scalar with no INTEGER column degrades to BIGINT
+        let col_or_lit = |g: &mut G| match g.pick_col(|t| t == ty) {
+            Some(c) if ty == ColType::Int32 || g.t.pick(4) != 3 => tcol(COLS[c].name),
+            _ => {
+                if g.t.chance(15) {
+                    Expr::Lit(Value::Null)
+                } else {
+                    g.lit(ty)
+                }
+            }
+        };
+        if depth == 0 {
+            return col_or_lit(self);
+        }
+        let numeric = ty.is_numeric();
+        match self.t.pick(9) {
+            0 | 1 if numeric => {
+                self.feat("arith");
+                let op = [BinOp::Add, BinOp::Sub, BinOp::Mul][self.t.pick(3)];
+                let a = self.scalar(ty, depth - 1);
+                let b = col_or_lit(self);
+                Expr::bin(a, op, b)
+            }
+            2 | 3 => {
+                self.feat("coalesce");
+                let n = 2 + self.t.pick(2);
+                // the engine's COALESCE wants identical argument types (INTEGER with a
+                // BIGINT literal is an error): INTEGER arguments are columns only, and a
+                // mixed INTEGER/BIGINT list stays rare
+                let mixed_ok = self.t.chance(8);
+                let exact = |g: &mut G| -> Expr {
+                    let cols = g.cols_of(|t| if mixed_ok { Self::same_family(t, ty) } else { t == ty });
+                    let lit_ok = ty != ColType::Int32 || mixed_ok;
+                    if !cols.is_empty() && (!lit_ok || g.t.pick(4) != 3) {
+                        tcol(COLS[cols[g.t.pick(cols.len())]].name)
+                    } else if g.t.chance(15) {
+                        Expr::Lit(Value::Null)
+                    } else {
+                        g.lit(ty)
+                    }
+                };
+                let first = if ty == ColType::Int32 && !mixed_ok { exact(self) } else { self.scalar(ty, depth - 1) };
+                let mut v = vec![first];
+                for _ in 1..n {
+                    v.push(exact(self));
+                }
+                Expr::Coalesce(v)
+            }
+            4 => {
+                self.feat("nullif");
+                let a = self.scalar(ty, depth - 1);
+                let b = col_or_lit(self);
+                Expr::NullIf(Box::new(a), Box::new(b))
+            }
+            5 | 6 => {
+                self.feat("case");
+                let n = 1 + self.t.pick(2);
+                let mut whens = vec![];
+                for _ in 0..n {
+                    let w = self.tree(depth - 1);
+                    // (`THEN NULL` with a typed ELSE is an engine error "Casting from … to Null": rare)
+                    let th = if self.t.chance(4) { Expr::Lit(Value::Null) } else { self.scalar(ty, depth - 1) };
+                    whens.push((w, th));
+                }
+                let els = if self.t.chance(60) { Some(Box::new(col_or_lit(self))) } else { None };
+                Expr::Case { operand: None, whens, els }
+            }
+            7 if self.t.chance(10) => {
+                // simple CASE: an open finding (operand ignored) — kept rare
+                self.feat("case_simple");
+                let (op, oty) = self.any_col();
+                let w = self.lit(if oty == ColType::Int32 { ColType::Int } else { oty });
+                let th = col_or_lit(self);
+                let els = if self.t.chance(60) { Some(Box::new(col_or_lit(self))) } else { None };
+                Expr::Case { operand: Some(Box::new(op)), whens: vec![(w, th)], els }
+            }
+            _ => col_or_lit(self),
+        }
+    }
+
+    fn cmp_op(&mut self) -> BinOp {
+        [BinOp::Eq, BinOp::Ne, BinOp::Lt, BinOp::Le, BinOp::Gt, BinOp::Ge][self.t.pick(6)]
+    }
+
+    fn atom(&mut self, depth: u32) -> Expr {
+        if self.numeric_only {
+            // compiled subset: same-typed comparisons and BETWEEN only. BIGINT
+            // columns against integer literals / each other, INTEGER columns
+            // against each other, DATE and DOUBLE against literals / each other.
+            let (l, ty) = self.any_col();
+            let rhs = |g: &mut G, ty: ColType| -> Expr {
+                if ty == ColType::Int32 {
+                    match g.pick_col(|t| t == ColType::Int32) {
+                        Some(c) => tcol(COLS[c].name),
+                        None => g.lit(ty),
+                    }
+                } else {
+                    g.operand(ty, 0)
+                }
+            };
+            if self.t.chance(25) {
+                self.feat("between");
+                let lo = rhs(self, ty);
+                let hi = rhs(self, ty);
+                return Expr::Between { e: Box::new(l), lo: Box::new(lo), hi: Box::new(hi), neg: self.t.chance(35) };
+            }
+            let op = self.cmp_op();
+            let r = rhs(self, ty);
+            return if self.t.chance(20) { Expr::bin(r, op, l) } else { Expr::bin(l, op, r) };
+        }
+        match self.t.pick(20) {
+            0..=4 => {
+                let (l, ty) = self.any_col();
+                let l = if depth > 0 && self.t.chance(15) { self.scalar(ty, depth - 1) } else { l };
+                let op = self.cmp_op();
+                let r = self.operand(ty, depth);
+                if self.t.chance(15) {
+                    Expr::bin(r, op, l)
+                } else {
+                    Expr::bin(l, op, r)
+                }
+            }
+            5 | 6 => {
+                self.feat("is_null");
+                let (l, ty) = self.any_col();
+                let l = if depth > 0 && self.t.chance(30) { self.scalar(ty, depth - 1) } else { l };
+                Expr::IsNull { e: Box::new(l), neg: self.t.chance(50) }
+            }
+            7 | 8 | 9 => {
+                self.feat("in_list");
+                let (l, ty) = self.any_col();
+                let l = match self.t.pick(12) {
+                    0 => {
+                        self.feat("in_list_null_lhs_literal");
+                        Expr::Lit(Value::Null)
+                    }
+                    1 => self.lit(ty),
+                    _ => l,
+                };
+                let n = 1 + self.t.pick(3);
+                let mut list: Vec<Expr> = (0..n).map(|_| self.lit(ty)).collect();
+                if self.t.chance(35) {
+                    self.feat("in_list_null_element");
+                    let pos = self.t.pick(list.len() + 1);
+                    list.insert(pos, Expr::Lit(Value::Null));
+                }
+                if self.t.chance(10) {
+                    // a column as list element
+                    if let Some(c) = self.pick_col(|t| Self::same_family(t, ty)) {
+                        self.feat("in_list_column_element");
+                        list.push(tcol(COLS[c].name));
+                    }
+                }
+                Expr::InList { e: Box::new(l), list, neg: self.t.chance(45) }
+            }
+            10 | 11 => {
+                self.feat("between");
+                let (l, ty) = self.any_col();
+                let lo = self.operand(ty, 0);
+                let hi = self.operand(ty, 0);
+                Expr::Between { e: Box::new(l), lo: Box::new(lo), hi: Box::new(hi), neg: self.t.chance(40) }
+            }
+            12 | 13 => match self.pick_col(|t| t == ColType::Str) {
+                Some(c) => {
+                    self.feat("like");
+                    let pat = ["a%", "%", "_", "%b", "a_", "", "%a%", "ab", "a%%", "__"][self.t.pick(10)].to_string();
+                    Expr::Like { e: Box::new(tcol(COLS[c].name)), pat, neg: self.t.chance(40) }
+                }
+                None => {
+                    let (l, ty) = self.any_col();
+                    let op = self.cmp_op();
+                    let r = self.operand(ty, 0);
+                    Expr::bin(l, op, r)
+                }
+            },
+            14 | 15 => {
+                self.feat("is_distinct_from");
+                let (l, ty) = self.any_col();
+                let r = self.operand(ty, 0);
+                Expr::IsDistinct { a: Box::new(l), b: Box::new(r), neg: self.t.chance(50) }
+            }
+            16 | 17 => match self.pick_col(|t| t == ColType::Bool) {
+                Some(c) => {
+                    self.feat("bool_column");
+                    tcol(COLS[c].name)
+                }
+                None => {
+                    let (l, ty) = self.any_col();
+                    let op = self.cmp_op();
+                    let r = self.operand(ty, 0);
+                    Expr::bin(l, op, r)
+                }
+            },
+            _ => self.literal_only(),
+        }
+    }
+
+    /// literal-only subtree (constant folding)
+    fn literal_only(&mut self) -> Expr {
+        self.feat("literal_only");
+        let null = || Expr::Lit(Value::Null);
+        // 22 slots: kinds 0..9 twice, the bare NULL once, IS DISTINCT once
+        let k = match self.t.pick(22) {
+            x @ 0..=19 => x / 2,
+            20 => 10,
+            _ => 11,
+        };
+        match k {
+            0 => Expr::Lit(Value::Bool(true)),
+            1 => Expr::Lit(Value::Bool(false)),
+            2 => Expr::bin(null(), BinOp::Eq, Expr::int(1)),
+            3 => Expr::bin(Expr::int(1), self.cmp_op(), Expr::int(self.t.pick(3) as i64)),
+            4 => Expr::bin(Expr::int(1), BinOp::Lt, null()),
+            5 => {
+                self.feat("cast_null_boolean");
+                Expr::Cast(Box::new(null()), ColType::Bool)
+            }
+            6 => Expr::InList { e: Box::new(Expr::int(2)), list: vec![Expr::int(1), null()], neg: self.t.chance(50) },
+            7 => Expr::IsNull { e: Box::new(null()), neg: self.t.chance(50) },
+            8 => Expr::Between { e: Box::new(Expr::int(1)), lo: Box::new(null()), hi: Box::new(Expr::int(self.t.pick(3) as i64)), neg: self.t.chance(50) },
+            9 => Expr::bin(Expr::Lit(Value::Str("a".into())), BinOp::Eq, Expr::Lit(Value::Str(["a", "b"][self.t.pick(2)].into()))),
+            10 => {
+                // a bare NULL as a boolean operand: the engine has no typed NULL
+                // here and mostly answers with an error (allowed) — kept rare
+                self.feat("bare_null_boolean");
+                null()
+            }
+            _ => Expr::IsDistinct { a: Box::new(null()), b: Box::new(Expr::int(1)), neg: self.t.chance(50) },
+        }
+    }
+
+    fn tree(&mut self, depth: u32) -> Expr {
+        if depth == 0 {
+            return self.atom(0);
+        }
+        // deeper levels prefer connectives so depth is really reached
+        match self.t.pick(10) {
+            0 | 1 => self.atom(depth),
+            2 | 3 | 4 => {
+                self.feat("and");
+                let a = self.tree(depth - 1);
+                let b = self.tree(depth - 1);
+                Expr::bin(a, BinOp::And, b)
+            }
+            5 | 6 | 7 => {
+                self.feat("or");
+                let a = self.tree(depth - 1);
+                let b = self.tree(depth - 1);
+                Expr::bin(a, BinOp::Or, b)
+            }
+            _ => {
+                self.feat("not");
+                Expr::Not(Box::new(self.tree(depth - 1)))
+            }
+        }
+    }
+}
+
+/// replace o.k / o.n by their values (placements without the join partner)
+fn subst_o(e: &Expr) -> Expr {
+    map_expr(e, &|x| match x {
+        Expr::Col { rel: Some(r), name } if r == "o" => Some(if name == "k" { Expr::int(1) } else { Expr::Lit(Value::Null) }),
+        _ => None,
+    })
+}
+
+/// structural map (pre-order: `f` may replace a node, otherwise children are mapped)
+fn map_expr(e: &Expr, f: &dyn Fn(&Expr) -> Option<Expr>) -> Expr {
+    if let Some(r) = f(e) {
+        return r;
+    }
+    let m = |x: &Expr| Box::new(map_expr(x, f));
+    match e {
+        Expr::Col { .. } | Expr::Lit(_) => e.clone(),
+        Expr::Bin(a, op, b) => Expr::Bin(m(a), *op, m(b)),
+        Expr::Not(a) => Expr::Not(m(a)),
+        Expr::Neg(a) => Expr::Neg(m(a)),
+        Expr::IsNull { e, neg } => Expr::IsNull { e: m(e), neg: *neg },
+        Expr::InList { e, list, neg } => Expr::InList { e: m(e), list: list.iter().map(|x| map_expr(x, f)).collect(), neg: *neg },
+        Expr::Between { e, lo, hi, neg } => Expr::Between { e: m(e), lo: m(lo), hi: m(hi), neg: *neg },
+        Expr::Like { e, pat, neg } => Expr::Like { e: m(e), pat: pat.clone(), neg: *neg },
+        Expr::Case { operand, whens, els } => Expr::Case {
+            operand: operand.as_ref().map(|o| m(o)),
+            whens: whens.iter().map(|(w, t)| (map_expr(w, f), map_expr(t, f))).collect(),
+            els: els.as_ref().map(|x| m(x)),
+        },
+        Expr::Coalesce(v) => Expr::Coalesce(v.iter().map(|x| map_expr(x, f)).collect()),
+        Expr::NullIf(a, b) => Expr::NullIf(m(a), m(b)),
+        Expr::IsDistinct { a, b, neg } => Expr::IsDistinct { a: m(a), b: m(b), neg: *neg },
+        Expr::Cast(x, t) => Expr::Cast(m(x), *t),
+        other => other.clone(),
+    }
+}
+
+fn referenced_t_cols(e: &Expr) -> Vec<String> {
+    let mut v: Vec<String> = vec![];
+    e.walk(&mut |x| {
+        if let Expr::Col { rel: Some(r), name } = x {
+            if r == "t" && !v.contains(name) {
+                v.push(name.clone());
+            }
+        }
+    });
+    v
+}
+
+#[derive(Clone, Debug, Serialize, Deserialize)]
+pub struct TvlCase {
+    /// the WHERE placement (`SELECT t.id FROM t WHERE e`, o.k/o.n replaced by
+    /// their values) over the tables [t, o] — what `probe` loads
+    pub sql_case: SqlCase,
+    /// the generated tree (may reference o.k / o.n): the ON predicate
+    pub expr: Expr,
+    /// HAVING placement through MIN(col) over single-row groups instead of grouping by the columns
+    pub having_minmax: bool,
+}
+
+fn from_t() -> Vec<From> {
+    vec![From::Table { name: "t".into(), alias: None }]
+}
+fn id_item() -> Item {
+    Item::Expr(tcol("id"), Some("id".into()))
+}
+
+fn gen_tvl(tape: Vec<u16>, cuts: Vec<usize>, max_depth: u32) -> TvlCase {
+    let mut t = Tape::new(tape);
+    let numeric_only = t.chance(33);
+    let candidates: Vec<usize> = if numeric_only { (0..COLS.len()).filter(|c| COLS[*c].ty != ColType::Str && COLS[*c].ty != ColType::Bool).collect() } else { (0..COLS.len()).collect() };
+    let k = 1 + t.pick(4);
+    let mut pool = candidates;
+    let mut chosen = vec![];
+    for _ in 0..k {
+        if pool.is_empty() {
+            break;
+        }
+        let i = t.pick(pool.len());
+        chosen.push(pool.remove(i));
+    }
+    chosen.sort();
+    let depth = 1 + t.pick(max_depth as usize) as u32;
+    let with_o = !numeric_only || t.chance(50);
+    let having_minmax = t.chance(50);
+    let mut g = G { t, chosen: chosen.clone(), numeric_only, with_o, feats: BTreeSet::new() };
+    let expr = g.tree(depth);
+    let mut feats: Vec<String> = g.feats.iter().map(|s| s.to_string()).collect();
+    if numeric_only {
+        feats.push("numeric_only".into());
+    }
+    feats.push(format!("depth{}", depth));
+    // the table is the cross product over the columns actually referenced (all chosen ones
+    // when the tree happens to reference none)
+    let used: Vec<usize> = {
+        let names = referenced_t_cols(&expr);
+        let u: Vec<usize> = chosen.iter().copied().filter(|c| names.iter().any(|n| n == COLS[*c].name)).collect();
+        if u.is_empty() {
+            chosen.clone()
+        } else {
+            u
+        }
+    };
+    let t_tab = build_t(&used);
+    let o2 = build_o2(t_tab.rows.len());
+    let tables = vec![t_tab, build_o(), o2];
+    let n = tables[0].rows.len();
+    let cuts_t: Vec<usize> = cuts.iter().map(|c| c % (n + 1)).collect();
+    let q = Query::select(Select::simple(vec![id_item()], from_t(), Some(subst_o(&expr))));
+    TvlCase { sql_case: SqlCase { tables, query: q, cuts: vec![cuts_t, vec![], vec![]], features: feats }, expr, having_minmax }
+}
+
+fn tvl_strategy(tier: Tier) -> BoxedStrategy<TvlCase> {
+    let max_depth = 4;
+    let _ = tier;
+    (proptest::collection::vec(any::<u16>(), 0..160), proptest::collection::vec(0usize..400, 0..3))
+        .prop_map(move |(tape, cuts)| gen_tvl(tape, cuts, max_depth))
+        .boxed()
+}
+
+// ---------------------------------------------------------------------------
+// independent per-row evaluator (Kleene and null-strict connectives)
+// ---------------------------------------------------------------------------
+
+#[derive(Clone, Copy, PartialEq, Eq, Debug)]
+enum Logic {
+    Kleene,
+    /// AND / OR / BETWEEN / IN are NULL as soon as one operand is NULL (the
+    /// null-propagating arrow `and`/`or` kernels)
+    Strict,
+}
+
+struct Row<'a> {
+    cols: &'a [Column],
+    vals: &'a [Value],
+}
+
+fn cmp_vals(a: &Value, b: &Value) -> Result<Option<Ordering>, String> {
+    if a.is_null() || b.is_null() {
+        return Ok(None);
+    }
+    Ok(Some(match (a, b) {
+        (Value::Int(x), Value::Int(y)) => x.cmp(y),
+        (Value::Str(x), Value::Str(y)) => x.as_bytes().cmp(y.as_bytes()),
+        (Value::Date(x), Value::Date(y)) => x.cmp(y),
+        (Value::Bool(x), Value::Bool(y)) => x.cmp(y),
+        (x, y) => match (x.as_f64(), y.as_f64()) {
+            (Some(p), Some(q)) => p.partial_cmp(&q).ok_or("nan")?,
+            _ => return Err(format!("cmp {:?} {:?}", x, y)),
+        },
+    }))
+}
+
+fn b3(v: &Value) -> Result<Option<bool>, String> {
+    match v {
+        Value::Null => Ok(None),
+        Value::Bool(b) => Ok(Some(*b)),
+        o => Err(format!("not boolean {:?}", o)),
+    }
+}
+fn vb(b: Option<bool>) -> Value {
+    b.map(Value::Bool).unwrap_or(Value::Null)
+}
+fn and3(lg: Logic, x: Option<bool>, y: Option<bool>) -> Option<bool> {
+    match (lg, x, y) {
+        (Logic::Strict, None, _) | (Logic::Strict, _, None) => None,
+        (_, Some(false), _) | (_, _, Some(false)) => Some(false),
+        (_, Some(true), Some(true)) => Some(true),
+        _ => None,
+    }
+}
+fn or3(lg: Logic, x: Option<bool>, y: Option<bool>) -> Option<bool> {
+    match (lg, x, y) {
+        (Logic::Strict, None, _) | (Logic::Strict, _, None) => None,
+        (_, Some(true), _) | (_, _, Some(true)) => Some(true),
+        (_, Some(false), Some(false)) => Some(false),
+        _ => None,
+    }
+}
+
+fn simple_like(s: &[char], p: &[char]) -> bool {
+    match p.split_first() {
+        None => s.is_empty(),
+        Some(('%', rest)) => (0..=s.len()).any(|i| simple_like(&s[i..], rest)),
+        Some(('_', rest)) => !s.is_empty() && simple_like(&s[1..], rest),
+        Some((c, rest)) => s.first() == Some(c) && simple_like(&s[1..], rest),
+    }
+}
+
+/// `null_sub` is set when some boolean sub-result is NULL.
+fn ev(e: &Expr, r: &Row, lg: Logic, null_sub: &mut bool) -> Result<Value, String> {
+    let out = match e {
+        Expr::Col { name, .. } => {
+            let i = r.cols.iter().position(|c| &c.name == name).ok_or("col")?;
+            return Ok(r.vals[i].clone());
+        }
+        Expr::Lit(v) => return Ok(v.clone()),
+        Expr::Cast(x, _) => return ev(x, r, lg, null_sub),
+        Expr::Bin(a, op, b) => {
+            let x = ev(a, r, lg, null_sub)?;
+            let y = ev(b, r, lg, null_sub)?;
+            match op {
+                BinOp::And => vb(and3(lg, b3(&x)?, b3(&y)?)),
+                BinOp::Or => vb(or3(lg, b3(&x)?, b3(&y)?)),
+                BinOp::Add | BinOp::Sub | BinOp::Mul => {
+                    if x.is_null() || y.is_null() {
+                        return Ok(Value::Null);
+                    }
+                    return Ok(match (&x, &y) {
+                        (Value::Int(p), Value::Int(q)) => Value::Int(match op {
+                            BinOp::Add => p + q,
+                            BinOp::Sub => p - q,
+                            _ => p * q,
+                        }),
+                        _ => {
+                            let (p, q) = (x.as_f64().ok_or("arith")?, y.as_f64().ok_or("arith")?);
+                            let v = match op {
+                                BinOp::Add => p + q,
+                                BinOp::Sub => p - q,
+                                _ => p * q,
+                            };
+                            if v == 0.0 && v.is_sign_negative() {
+                                return Err("negative zero".into());
+                            }
+                            Value::Double(v)
+                        }
+                    });
+                }
+                _ => vb(cmp_vals(&x, &y)?.map(|o| match op {
+                    BinOp::Eq => o == Ordering::Equal,
+                    BinOp::Ne => o != Ordering::Equal,
+                    BinOp::Lt => o == Ordering::Less,
+                    BinOp::Le => o != Ordering::Greater,
+                    BinOp::Gt => o == Ordering::Greater,
+                    _ => o != Ordering::Less,
+                })),
+            }
+        }
+        Expr::Not(x) => vb(b3(&ev(x, r, lg, null_sub)?)?.map(|b| !b)),
+        Expr::IsNull { e, neg } => Value::Bool(ev(e, r, lg, null_sub)?.is_null() != *neg),
+        Expr::InList { e, list, neg } => {
+            let x = ev(e, r, lg, null_sub)?;
+            let mut acc: Option<bool> = Some(false);
+            for it in list {
+                let y = ev(it, r, lg, null_sub)?;
+                let eq = cmp_vals(&x, &y)?.map(|o| o == Ordering::Equal);
+                acc = or3(lg, acc, eq);
+            }
+            vb(acc.map(|b| b != *neg))
+        }
+        Expr::Between { e, lo, hi, neg } => {
+            let x = ev(e, r, lg, null_sub)?;
+            let l = ev(lo, r, lg, null_sub)?;
+            let h = ev(hi, r, lg, null_sub)?;
+            let ge = cmp_vals(&x, &l)?.map(|o| o != Ordering::Less);
+            let le = cmp_vals(&x, &h)?.map(|o| o != Ordering::Greater);
+            vb(and3(lg, ge, le).map(|b| b != *neg))
+        }
+        Expr::Like { e, pat, neg } => match ev(e, r, lg, null_sub)? {
+            Value::Null => Value::Null,
+            Value::Str(s) => {
+                let sc: Vec<char> = s.chars().collect();
+                let pc: Vec<char> = pat.chars().collect();
+                Value::Bool(simple_like(&sc, &pc) != *neg)
+            }
+            o => return Err(format!("like {:?}", o)),
+        },
+        Expr::IsDistinct { a, b, neg } => {
+            let x = ev(a, r, lg, null_sub)?;
+            let y = ev(b, r, lg, null_sub)?;
+            let same = match (x.is_null(), y.is_null()) {
+                (true, true) => true,
+                (true, false) | (false, true) => false,
+                _ => cmp_vals(&x, &y)? == Some(Ordering::Equal),
+            };
+            Value::Bool(!same != *neg)
+        }
+        Expr::Case { operand, whens, els } => {
+            let opv = match operand {
+                Some(o) => Some(ev(o, r, lg, null_sub)?),
+                None => None,
+            };
+            for (w, t) in whens {
+                let wv = ev(w, r, lg, null_sub)?;
+                let hit = match &opv {
+                    Some(o) => cmp_vals(o, &wv)? == Some(Ordering::Equal),
+                    None => b3(&wv)? == Some(true),
+                };
+                if hit {
+                    return ev(t, r, lg, null_sub);
+                }
+            }
+            return match els {
+                Some(x) => ev(x, r, lg, null_sub),
+                None => Ok(Value::Null),
+            };
+        }
+        Expr::Coalesce(v) => {
+            for x in v {
+                let y = ev(x, r, lg, null_sub)?;
+                if !y.is_null() {
+                    return Ok(y);
+                }
+            }
+            return Ok(Value::Null);
+        }
+        Expr::NullIf(a, b) => {
+            let x = ev(a, r, lg, null_sub)?;
+            let y = ev(b, r, lg, null_sub)?;
+            return Ok(if cmp_vals(&x, &y)? == Some(Ordering::Equal) { Value::Null } else { x });
+        }
+        other => return Err(format!("outside the C02 grammar: {}", other.sql())),
+    };
+    if out.is_null() {
+        *null_sub = true;
+    }
+    Ok(out)
+}
+
+// ---------------------------------------------------------------------------
+// known-finding signatures specific to this property
+// ---------------------------------------------------------------------------
+
+fn tvl_classify(c: &SqlCase, ev: &BTreeSet<&'static str>, _msg: &str) -> Option<&'static str> {
+    // simple CASE: the operand is ignored (shared signature, evaluated for some row)
+    if ev.contains("case_simple") {
+        return Some("case-simple-operand-ignored");
+    }
+    // LEFT JOIN whose whole ON condition constant-folds to an untyped NULL literal
+    if has(c, "place_left") {
+        if let SetExpr::Select(s) = &c.query.body {
+            if let Some(From::Join { on: Some(on), .. }) = s.from.first() {
+                if matches!(engine_fold(on), Expr::Lit(Value::Null)) {
+                    return Some("join-on-untyped-null");
+                }
+            }
+        }
+    }
+    None
+}
+
+/// What the engine's ConstantFolding rule makes of a literal-only boolean
+/// expression: AND/OR of two boolean literals are evaluated, `x AND TRUE`,
+/// `x OR FALSE` reduce to `x`, integer/string literal comparisons are
+/// evaluated; nothing else is touched (in particular NULL literals stay).
+fn engine_fold(e: &Expr) -> Expr {
+    match e {
+        Expr::Bin(a, op, b) => {
+            let (x, y) = (engine_fold(a), engine_fold(b));
+            let bl = |v: &Expr| if let Expr::Lit(Value::Bool(b)) = v { Some(*b) } else { None };
+            match op {
+                BinOp::And => match (bl(&x), bl(&y)) {
+                    (Some(p), Some(q)) => Expr::Lit(Value::Bool(p && q)),
+                    (_, Some(true)) => x,
+                    (Some(true), _) => y,
+                    (Some(false), _) | (_, Some(false)) => Expr::Lit(Value::Bool(false)),
+                    _ => Expr::bin(x, *op, y),
+                },
+                BinOp::Or => match (bl(&x), bl(&y)) {
+                    (Some(p), Some(q)) => Expr::Lit(Value::Bool(p || q)),
+                    (_, Some(false)) => x,
+                    (Some(false), _) => y,
+                    (Some(true), _) | (_, Some(true)) => Expr::Lit(Value::Bool(true)),
+                    _ => Expr::bin(x, *op, y),
+                },
+                o if o.is_cmp() => match (&x, &y) {
+                    (Expr::Lit(p @ (Value::Int(_) | Value::Str(_))), Expr::Lit(q @ (Value::Int(_) | Value::Str(_)))) => match cmp_vals(p, q) {
+                        Ok(Some(ord)) => Expr::Lit(Value::Bool(match o {
+                            BinOp::Eq => ord == Ordering::Equal,
+                            BinOp::Ne => ord != Ordering::Equal,
+                            BinOp::Lt => ord == Ordering::Less,
+                            BinOp::Le => ord != Ordering::Greater,
+                            BinOp::Gt => ord == Ordering::Greater,
+                            _ => ord != Ordering::Less,
+                        })),
+                        _ => Expr::bin(x, *op, y),
+                    },
+                    _ => Expr::bin(x, *op, y),
+                },
+                _ => Expr::bin(x, *op, y),
+            }
+        }
+        other => other.clone(),
+    }
+}
+
+// ---------------------------------------------------------------------------
+// the check
+// ---------------------------------------------------------------------------
+
+/// Did the engine compile the WHERE predicate of this statement (asks the
+/// engine's own compiler about the optimized plan's filters)?
+/// finer class of an engine error (evidence labels only)
+fn err_class(c: &SqlCase) -> String {
+    let ctx = mem_context(c);
+    match run_sql(&ctx, &c.query.sql()) {
+        Ok(_) => "none".into(),
+        Err(e) => {
+            let e = e.lines().next().unwrap_or("").to_string();
+            if let Ok(pat) = std::env::var("C02_DUMP_ERR") {
+                // development aid
+                if e.contains(&pat) {
+                    eprintln!("C02_DUMP_ERR {} :: {}", e, c.query.sql());
+                }
+            }
+            let tail = e.rsplit("failed: ").next().unwrap_or(&e).to_string();
+            let t: String = tail.chars().filter(|ch| !ch.is_ascii_digit()).take(70).collect();
+            t
+        }
+    }
+}
+
+fn engine_compiles_filter(ctx: &query_engine::ExecutionContext, sql: &str) -> Option<bool> {
+    use query_engine::physical::compiled_expr::CompiledPredicate;
+    use query_engine::planner::LogicalPlan;
+    let plan = std::panic::catch_unwind(std::panic::AssertUnwindSafe(|| ctx.optimized_plan(sql))).ok()?.ok()?;
+    fn walk(p: &LogicalPlan, found: &mut Vec<bool>) {
+        match p {
+            LogicalPlan::Filter(n) => {
+                let schema = n.input.schema().to_arrow_schema();
+                found.push(CompiledPredicate::compile(&n.predicate, &schema).is_some());
+            }
+            LogicalPlan::Scan(n) => {
+                if let Some(f) = &n.filter {
+                    let schema = n.schema.to_arrow_schema();
+                    found.push(CompiledPredicate::compile(f, &schema).is_some());
+                }
+            }
+            _ => {}
+        }
+        for c in p.children() {
+            walk(c, found);
+        }
+    }
+    let mut found = vec![];
+    walk(&plan, &mut found);
+    if found.is_empty() {
+        None
+    } else {
+        Some(found.iter().any(|b| *b))
+    }
+}
+
+struct Placement {
+    name: &'static str,
+    case: SqlCase,
+}
+
+fn placements(c: &TvlCase) -> Vec<Placement> {
+    let base = &c.sql_case;
+    let e_plain = subst_o(&c.expr);
+    let mk = |name: &'static str, q: Query| {
+        let mut features = base.features.clone();
+        features.push(format!("place_{}", name));
+        Placement { name, case: SqlCase { tables: base.tables.clone(), query: q, cuts: base.cuts.clone(), features } }
+    };
+    let mut out = vec![];
+    out.push(mk("where", base.query.clone()));
+    out.push(mk(
+        "project",
+        Query::select(Select::simple(vec![id_item(), Item::Expr(e_plain.clone(), Some("v".into()))], from_t(), None)),
+    ));
+    // HAVING over single-row groups
+    let refs = referenced_t_cols(&e_plain);
+    // MIN/MAX of a BOOLEAN, and an aggregate inside IN / BETWEEN, are "not
+    // implemented" errors in the engine: those trees group by the columns
+    let mut unsupported = refs.iter().any(|n| n == "p");
+    e_plain.walk(&mut |x| {
+        if matches!(x, Expr::InList { .. } | Expr::Between { .. }) {
+            unsupported = true;
+        }
+    });
+    let has_bool_col = unsupported;
+    let having = if c.having_minmax && !has_bool_col {
+        let h = map_expr(&e_plain, &|x| match x {
+            Expr::Col { rel: Some(r), name } if r == "t" => Some(Expr::agg(if name.as_bytes()[0] % 2 == 0 { AggF::Min } else { AggF::Max }, x.clone())),
+            _ => None,
+        });
+        Select { distinct: false, items: vec![id_item()], from: from_t(), where_: None, group: Group::By(vec![tcol("id")]), having: Some(h) }
+    } else {
+        let mut keys = vec![tcol("id")];
+        keys.extend(refs.iter().map(|n| tcol(n)));
+        Select { distinct: false, items: vec![id_item()], from: from_t(), where_: None, group: Group::By(keys), having: Some(e_plain.clone()) }
+    };
+    out.push(mk(if c.having_minmax && !has_bool_col { "having_minmax" } else { "having_keys" }, Query::select(having)));
+    let join = |kind: JoinKind| From::Join {
+        l: Box::new(From::Table { name: "t".into(), alias: None }),
+        r: Box::new(From::Table { name: "o".into(), alias: None }),
+        kind,
+        on: Some(c.expr.clone()),
+    };
+    // WHERE above an outer join: the null-extended rows (all t columns NULL) meet the tree
+    if base.tables.len() >= 3 {
+        let f = From::Join {
+            l: Box::new(From::Table { name: "o2".into(), alias: None }),
+            r: Box::new(From::Table { name: "t".into(), alias: None }),
+            kind: JoinKind::Left,
+            on: Some(Expr::eq(Expr::qcol("o2", "j"), tcol("id"))),
+        };
+        out.push(mk(
+            "above_left",
+            Query::select(Select::simple(vec![Item::Expr(Expr::qcol("o2", "j"), Some("j".into())), id_item()], vec![f], Some(e_plain.clone()))),
+        ));
+    }
+    out.push(mk("inner", Query::select(Select::simple(vec![id_item()], vec![join(JoinKind::Inner)], None))));
+    out.push(mk(
+        "left",
+        Query::select(Select::simple(vec![id_item(), Item::Expr(Expr::qcol("o", "k"), Some("k".into()))], vec![join(JoinKind::Left)], None)),
+    ));
+    out
+}
+
+struct Tvl;
+
+impl Check for Tvl {
+    type Case = TvlCase;
+    fn name(&self) -> &'static str {
+        "tvl_placements"
+    }
+    fn rule(&self) -> &'static str {
+        "for some row of the cross-product table a boolean sub-result is NULL and null-strict (non-Kleene) AND/OR/BETWEEN/IN evaluation would keep/drop that row differently from SQL three-valued logic; and the engine answered at least the WHERE placement"
+    }
+    fn cases(&self, tier: Tier) -> u32 {
+        tier.pick(1500, 60_000)
+    }
+    fn max_shrink_iters(&self) -> u32 {
+        1500
+    }
+    fn strategy(&self, tier: Tier) -> BoxedStrategy<TvlCase> {
+        tvl_strategy(tier)
+    }
+    fn test(&self, c: &TvlCase, obs: &mut Obs) -> Verdict {
+        let t = &c.sql_case.tables[0];
+        let e_plain = subst_o(&c.expr);
+        for f in &c.sql_case.features {
+            obs.label(format!("feat:{}", f));
+        }
+        obs.label(format!("rows:{}", (t.rows.len() / 50) * 50));
+        // ---- independent evaluation: Kleene and null-strict
+        let mut kept: Vec<i64> = vec![];
+        let mut verdict_differs = false;
+        let mut value_differs = false;
+        let mut any_null_sub = false;
+        let mut own_ok = true;
+        for r in &t.rows {
+            let row = Row { cols: &t.cols, vals: r };
+            let mut ns = false;
+            let k = ev(&e_plain, &row, Logic::Kleene, &mut ns);
+            let mut ns2 = false;
+            let s = ev(&e_plain, &row, Logic::Strict, &mut ns2);
+            match (k, s) {
+                (Ok(k), Ok(s)) => {
+                    let (k, s) = match (b3(&k), b3(&s)) {
+                        (Ok(k), Ok(s)) => (k, s),
+                        _ => {
+                            own_ok = false;
+                            break;
+                        }
+                    };
+                    if k == Some(true) {
+                        if let Value::Int(i) = r[0] {
+                            kept.push(i);
+                        }
+                    }
+                    any_null_sub |= ns;
+                    if ns && (k == Some(true)) != (s == Some(true)) {
+                        verdict_differs = true;
+                    }
+                    if ns && k != s {
+                        value_differs = true;
+                    }
+                }
+                _ => {
+                    own_ok = false;
+                    break;
+                }
+            }
+        }
+        if !own_ok {
+            // -0.0 or a bare NULL where a boolean is required etc.: refsql decides (it discards)
+            obs.label("own_eval:err");
+        }
+        if any_null_sub {
+            obs.label("null_sub_result");
+        }
+        if verdict_differs {
+            obs.label("strict_differs:verdict");
+        }
+        if value_differs {
+            obs.label("strict_differs:value");
+        }
+
+        // ---- oracle self-check on the WHERE placement
+        if own_ok {
+            match Db::new(&c.sql_case.tables).run(&c.sql_case.query) {
+                Ok(a) => {
+                    let mut ids: Vec<i64> = a.rows.iter().filter_map(|r| if let Value::Int(i) = r[0] { Some(i) } else { None }).collect();
+                    ids.sort();
+                    let mut mine = kept.clone();
+                    mine.sort();
+                    if ids != mine {
+                        return Verdict::Fail(format!(
+                            "ORACLE SELF-CHECK: refsql and the module's own evaluator disagree on the kept ids (harness bug, not an engine defect)\n sql: {}\n refsql: {:?}\n own: {:?}",
+                            c.sql_case.query.sql(),
+                            ids,
+                            mine
+                        ));
+                    }
+                }
+                Err(_) => {}
+            }
+        }
+
+        // ---- the five placements
+        let mut worst: Option<Verdict> = None;
+        let mut discards = 0;
+        let mut where_answered = false;
+        let pls = placements(c);
+        let npl = pls.len();
+        for p in pls {
+            let mut o2 = Obs::default();
+            let out = judge(&p.case, &mut o2, 0.0, tvl_classify);
+            for l in o2.labels {
+                if !l.starts_with("feat:") {
+                    obs.label(format!("{}:{}", p.name, l));
+                }
+            }
+            if out.engine_rows.is_none() && !matches!(out.verdict, Verdict::Discard(_)) {
+                obs.label(format!("{}:err:{}", p.name, err_class(&p.case)));
+            }
+            if p.name == "where" {
+                if let Some(s) = o2.sample {
+                    obs.sample(s);
+                }
+                where_answered = out.engine_rows.is_some();
+                if where_answered {
+                    let ctx = mem_context(&p.case);
+                    match engine_compiles_filter(&ctx, &p.case.query.sql()) {
+                        Some(true) => obs.label("where:compiled_predicate"),
+                        Some(false) => obs.label("where:interpreted_predicate"),
+                        None => obs.label("where:no_filter_in_plan"),
+                    }
+                }
+            }
+            match out.verdict {
+                Verdict::Pass => {}
+                Verdict::Discard(why) => {
+                    discards += 1;
+                    obs.label(format!("{}:discard:{}", p.name, why));
+                }
+                Verdict::Fail(m) => {
+                    let m = format!("[placement {}] {}", p.name, m);
+                    if !matches!(worst, Some(Verdict::Fail(_))) {
+                        worst = Some(Verdict::Fail(m));
+                    }
+                }
+                Verdict::Known { id, msg } => {
+                    if worst.is_none() {
+                        worst = Some(Verdict::Known { id, msg: format!("[placement {}] {}", p.name, msg) });
+                    }
+                }
+            }
+        }
+        obs.nontrivial(verdict_differs && where_answered);
+        match worst {
+            Some(v) => v,
+            None if discards == npl => Verdict::Discard("all placements outside the reference dialect".into()),
+            None => Verdict::Pass,
+        }
+    }
+}
+
+// ---------------------------------------------------------------------------
+// scalar expressions: NULL exactly where SQL says
+// ---------------------------------------------------------------------------
+
+fn gen_scalar(tape: Vec<u16>, cuts: Vec<usize>) -> SqlCase {
+    let mut t = Tape::new(tape);
+    let k = 1 + t.pick(4);
+    let mut pool: Vec<usize> = (0..COLS.len()).collect();
+    let mut chosen = vec![];
+    for _ in 0..k {
+        let i = t.pick(pool.len());
+        chosen.push(pool.remove(i));
+    }
+    chosen.sort();
+    let mut g = G { t, chosen: chosen.clone(), numeric_only: false, with_o: false, feats: BTreeSet::new() };
+    let n_items = 1 + g.t.pick(3);
+    let mut items = vec![id_item()];
+    let mut exprs = vec![];
+    for i in 0..n_items {
+        let ty = match g.pick_col(|t| t != ColType::Bool) {
+            Some(c) => COLS[c].ty,
+            None => ColType::Int,
+        };
+        let depth = 1 + g.t.pick(3) as u32;
+        let e = g.scalar(ty, depth);
+        exprs.push(e.clone());
+        items.push(Item::Expr(e, Some(format!("v{}", i))));
+    }
+    let mut feats: Vec<String> = g.feats.iter().map(|s| s.to_string()).collect();
+    feats.push("place_scalar".into());
+    let mut names: Vec<String> = vec![];
+    for e in &exprs {
+        for n in referenced_t_cols(e) {
+            if !names.contains(&n) {
+                names.push(n);
+            }
+        }
+    }
+    let used: Vec<usize> = {
+        let u: Vec<usize> = chosen.iter().copied().filter(|c| names.iter().any(|n| n == COLS[*c].name)).collect();
+        if u.is_empty() {
+            chosen
+        } else {
+            u
+        }
+    };
+    let tables = vec![build_t(&used), build_o()];
+    let n = tables[0].rows.len();
+    let cuts_t: Vec<usize> = cuts.iter().map(|c| c % (n + 1)).collect();
+    SqlCase { tables, query: Query::select(Select::simple(items, from_t(), None)), cuts: vec![cuts_t, vec![]], features: feats }
+}
+
+struct ScalarNulls;
+impl Check for ScalarNulls {
+    type Case = SqlCase;
+    fn name(&self) -> &'static str {
+        "scalar_nulls"
+    }
+    fn rule(&self) -> &'static str {
+        "some projected CASE/COALESCE/NULLIF/arithmetic expression is NULL for one row and non-NULL for another row of the cross-product table, and the engine answered"
+    }
+    fn cases(&self, tier: Tier) -> u32 {
+        tier.pick(1200, 40_000)
+    }
+    fn max_shrink_iters(&self) -> u32 {
+        1500
+    }
+    fn strategy(&self, _tier: Tier) -> BoxedStrategy<SqlCase> {
+        (proptest::collection::vec(any::<u16>(), 0..120), proptest::collection::vec(0usize..400, 0..3)).prop_map(|(tape, cuts)| gen_scalar(tape, cuts)).boxed()
+    }
+    fn test(&self, c: &SqlCase, obs: &mut Obs) -> Verdict {
+        let out = judge(c, obs, 0.0, tvl_classify);
+        if out.engine_rows.is_none() && !matches!(out.verdict, Verdict::Discard(_)) {
+            obs.label(format!("err:{}", err_class(c)));
+        }
+        // NULL-ness varies over the rows of some projected expression
+        let mut varies = false;
+        if let Ok(a) = Db::new(&c.tables).run(&c.query) {
+            let w = a.cols.len();
+            for j in 1..w {
+                let nulls = a.rows.iter().filter(|r| r[j].is_null()).count();
+                if nulls > 0 && nulls < a.rows.len() {
+                    varies = true;
+                }
+            }
+        }
+        obs.nontrivial(varies && out.engine_rows.is_some());
+        out.verdict
+    }
+}
 
 pub fn property() -> Property {
-    Property { id: "C02", level: "exploration", assumptions: &[], checks: vec![] }
+    let _ = refsql::truth;
+    Property {
+        id: "C02",
+        level: "exploration",
+        assumptions: &[
+            "the reference evaluator refsql implements SQL three-valued logic (cross-checked against SQLite; additionally cross-checked per case against this module's own row evaluator)",
+            "an engine error is an allowed outcome (e.g. a bare NULL literal as a boolean operand is rejected by the engine's type check); only wrong answers are violations",
+            "statements producing -0.0 are discarded (engine-defined)",
+        ],
+        checks: vec![Box::new(Tvl), Box::new(ScalarNulls)],
+    }
 }
